@@ -145,7 +145,8 @@ def real_B(text):
 # ---------------------------------------------------------------- known findings
 # Each classifier: (normalise(text) -> text', symbolic trigger over the input)
 _FLAG = re.compile(r'\+[mp]+:')
-_FIXED = re.compile(r'''('((\\')|[^'])*'|"((\\")|[^"])*")(\s*)~''')
+# a fixed name, then whatever the grammar language skips (whitespace, comments), then '~'
+_FIXED = re.compile(r'''('((\\')|[^'])*'|"((\\")|[^"])*")((?:\s|/\*.*?\*/|//[^\n]*(?:\n|$))*)~''', re.S)
 _DIGID = re.compile(r'(?<!\w)(\d\w*)')
 
 
